@@ -146,6 +146,7 @@ def proof_keys(flow: SolveFlow, state) -> List[str]:
 
 def check(prog: Program, rep):
     r1(prog, rep)
+    r1b(prog, rep)
     r2(prog, rep)
     r3(prog, rep)
     r4(prog, rep)
@@ -197,6 +198,43 @@ def r1(prog: Program, rep):
                         continue
             rep.violation("C13.R1", f"{f.qualname}:{what}",
                           f"solved flag raised without a proof condition on some path (state: {describe(st)[:300]})", loc)
+
+
+def r1b(prog: Program, rep):
+    """A solve() that runs its own solver leaves the flag *lowered* on every exit that lacks a proof: the flag must never
+    survive from an earlier, successful solve() of the same object."""
+    rep.rule("C13.R1b", "solve() lowers the solved flag on every exit without a proof (no stale True from an earlier solve)", floor=8)
+    for f in prog.all_functions():
+        if f.cls is None or f.name != "solve":
+            continue
+        if not any((dotted(c.func) or "") == "self.solver.optimize" for c in calls_in(f.node)):
+            continue
+        flow = SolveFlow(prog, f)
+        flow.run(f.node)
+        n = 0
+        for kind, node, state, what in flow.events:
+            if kind not in ("return", "fallthrough") or state is None:
+                continue
+            n += 1
+            bad = None
+            for w in state:
+                v = w.get("self._is_solved")
+                proven = any(w.get(k) is not None and w.get(k) <= {OPT} for k in flow.solve_keys) or \
+                    (w.get("N:self.external_solution_paths") is not None and w.get("N:self.external_solution_paths") <= {NOTNONE})
+                if v is not None and v <= {"True"} and proven:
+                    continue
+                if v is not None and v <= {"False"}:
+                    continue
+                bad = (v, proven)
+            key = f"{f.qualname}:exit:{what[:30]}"
+            if bad is None:
+                rep.ok("C13.R1b", key, "flag is True only with a proof and explicitly False otherwise", f.loc(node) if hasattr(node, "lineno") else f.loc())
+            else:
+                rep.violation("C13.R1b", f"{f.qualname}:flag-not-lowered", f"an exit of {f.qualname} (`{what[:30]}`) is reachable without a proof of optimality and without "
+                              f"`self._is_solved = False` on that path (flag value there: {sorted(bad[0]) if bad[0] else 'whatever an earlier solve() left'}): after a "
+                              "successful solve() a later inconclusive run on the same object still reports solved", f.loc(node) if hasattr(node, "lineno") else f.loc())
+        if n == 0:
+            raise AnalysisError(f"{f.qualname}: no exit found")
 
 
 def greedy_guard_holds(state) -> bool:
